@@ -28,7 +28,7 @@ class Prop(common.PropertyCheck):
             D = rng.randrange(2, 5)
             yield {'D': D, 'res': [rng.choice([256, 1000, 1024, 4096, 65536, 262144]) for _ in range(D)],
                    'pne': [rng.choice(['0,0', '4,1', '3,1', '4.5,1', '7.3,0.5', '2,0', '1,1', '4,0']) for _ in range(D)],
-                   'gain': [rng.choice([None, '1', '2', '0.5', '8', '0.01']) for _ in range(D)],
+                   'gain': [rng.choice([None, '1', '2', '0.5', '8', '0.01', '1.1', '2.2', '0.55', '9.3', '0.07', '1.08']) for _ in range(D)],
                    'm': [rng.uniform(0.85, 1.25) for _ in range(D)], 'b': [rng.uniform(0, 7) for _ in range(D)],
                    'rfi_ch': rng.choice(['all', 'subset', 'one']), 'mef_ch': rng.choice(['subset', 'one', 'all']),
                    'override': rng.random() < 0.3, 'sc_all': rng.random() < 0.5, 'seed': rng.randrange(1 << 30),
@@ -53,6 +53,10 @@ class Prop(common.PropertyCheck):
             col = [0, 1, rr - 2, rr - 1, rr - 1, 0] + [r.randrange(0, rr) for _ in range((max(case['res']) + 300) if case.get('many') else 14)]
             if case.get('nozero'):
                 col = [v if v != 0 else 1 + r.randrange(0, 3) for v in col]
+            top = 1 << (rr - 1).bit_length()
+            if top > rr and case['seed'] % 3 == 0:
+                # a range that is not a power of two: the file may hold events above $PnR-1 (the reader keeps ceil(log2($PnR)) bits)
+                col += [rr, top - 1, (rr + top) // 2]
             if c in (case.get('nolimit') or []) and rr > 8:
                 col = [min(max(v, 2), rr - 3) for v in col]
             ev.append(col)
